@@ -643,4 +643,8 @@ def sRun (cfg : Cfg) : STxn → List SOp → STxn × List Res
 
 def sExit (t : STxn) (exc : Bool) : STxn := if t.ended then t else (sEnd t (!exc)).1
 
+/-- the flat map of a node map: one entry per rdataset, keyed by (owner, type, covers) -/
+def flatten (v : Nodes) : SZone :=
+  v.flatMap fun e => e.2.map fun r => ((e.1, r.rdtype, r.covers), r)
+
 end Model.ZT
